@@ -75,8 +75,22 @@ class C12(InvProp):
             out.append(c)
         return out + super().corpus()
 
+    def judge(self, req, impl, reply):
+        if req.get("op") == "py_inventory":
+            from .c19 import PROP as _C19
+            return _C19.judge(req, impl, reply)
+        return self._inv_judge(req, impl, reply)
+
     def cases(self, tier, seed):
         from .. import geninv2 as _GI2
+        from .. import genv as _G
+        # each node's entry in the full inventory = rendering that node alone, through the Python API as well, for
+        # names that look like file names
+        for nm in (["backup.yaml.yml", "backup.yml"], ["legacy.yml.yaml"], ["a.yml.yml", "a.yaml.yml", "a.yml"]):
+            yield {"op": "py_inventory", "config": {}, "files": [{"path": "nodes/" + n, "content": {"parameters": _G.enc({"who": n}), "applications": [n]}} for n in nm]}
+        yield {"op": "py_inventory", "config": {"compose_node_name": True}, "files": [
+            {"path": "nodes/formats/yml.yml", "content": {"parameters": _G.enc({"who": "formats.yml"})}},
+            {"path": "nodes/formats.yml", "content": {"parameters": _G.enc({"who": "formats"})}}]}
         for j in range(10 if tier == "quick" else 100):
             c = _GI2.linked_inventory(Rng(seed, "C12:linked", j))
             c["repeat"] = 1
@@ -133,7 +147,7 @@ class C12(InvProp):
                     f["content"]["applications"] = ["own%d" % k] + ["~own%d" % j for j in range(len(nodes)) if j != k and r.chance(2, 3)]
             yield c
 
-    def judge(self, req, impl, reply):
+    def _inv_judge(self, req, impl, reply):
         j = super().judge(req, impl, reply)
         if j.get("skip") or not isinstance(impl, dict):
             return j
